@@ -32,7 +32,7 @@ func (db *Database) VerifIndexSnapshot() string {
 		if i > 0 {
 			sb.WriteByte(',')
 		}
-		sb.WriteString(strconv.Itoa(l.cmd) + "/" + strconv.Itoa(l.desc) + "/" + strconv.Itoa(l.keys) + "/" + strconv.Itoa(l.tags))
+		sb.WriteString(strconv.Itoa(int(l.cmd)) + "/" + strconv.Itoa(int(l.desc)) + "/" + strconv.Itoa(int(l.keys)) + "/" + strconv.Itoa(int(l.tags)))
 	}
 	f := func(x float64) string { return "f:" + strconv.FormatUint(math.Float64bits(x), 16) }
 	if idx.N == 0 {
@@ -65,7 +65,7 @@ func (db *Database) VerifIndexSnapshot() string {
 			if j > 0 {
 				e.WriteByte('+')
 			}
-			e.WriteString(strconv.Itoa(p.docID) + "/" + strconv.Itoa(p.tf.cmd) + "/" + strconv.Itoa(p.tf.desc) + "/" + strconv.Itoa(p.tf.keys) + "/" + strconv.Itoa(p.tf.tags))
+			e.WriteString(strconv.Itoa(int(p.docID)) + "/" + strconv.Itoa(int(p.tf.cmd)) + "/" + strconv.Itoa(int(p.tf.desc)) + "/" + strconv.Itoa(int(p.tf.keys)) + "/" + strconv.Itoa(int(p.tf.tags)))
 		}
 		posts = append(posts, e.String())
 	}
